@@ -1,23 +1,72 @@
 (* C13 — a hot node killed at any instant resumes without losing messages or operations. *)
 From Coq Require Import String List NArith ZArith Bool.
-Require Import Fsm.EngineDefs Fsm.Types Fsm.Actions Fsm.Provider Node.Types Node.Process Node.Crash.
+Require Import Fsm.EngineDefs Fsm.Types Fsm.Actions Fsm.Provider Node.Types Node.Process Node.Crash Node.CrashReplay.
+Require Node.Local.
 Require Board.File Gen.Skeletons.
 Import ListNotations.
 
-(* the full statement (every crash point is harmless) is REFUTED: witness = the opening proposal,
-   killed between SaveFSM and PutOperation; after restart and redelivery the round has advanced but
-   the operation is never offered.  This is the open finding C13-fsm-saved-before-operation. *)
-Theorem C13_resume_equiv_refuted :
+(* the handler of a board message puts the operation into the pool BEFORE it saves the round, and the
+   round save is its last durable write (fix of the former finding C13-fsm-saved-before-operation:
+   the round used to be saved first, and a node killed between the two writes came back with a round
+   that had moved on and no operation for it). *)
+
+(* 1. killed strictly inside the handler - or anywhere in a handler that refuses the message - the
+   node comes back with every stored round as it was *)
+Theorem C13_killed_inside_keeps_rounds :
+  forall now st m k hc u,
+  let r := process_board_message now {| h_st := st; h_tr := [] |} m in
+  (k < count_durable (trace_of r) \/ (exists h, r = RErr h)) ->
+  crash_after st k r = ROk hc u ->
+  ns_rounds (h_st hc) = ns_rounds st.
+Proof. exact killed_inside_keeps_rounds. Qed.
+Print Assumptions C13_killed_inside_keeps_rounds.
+
+(* 2. ... and the redelivered message is handled - at whatever later time - exactly as the node that
+   was never killed would handle it: same verdict, same operation, same new state of the round.
+   (Messages that also write the signature store - batch proposals, reconstructed signatures - are
+   covered by the crash cases of the correspondence runs, not by this theorem.) *)
+Theorem C13_killed_inside_then_redelivered :
+  forall put now now' st m k hc u,
+  ns_skip st = false ->
+  m_event m <> ev_sgn_start -> m_event m <> ev_sig_reconstructed ->
+  let r := process_board_message now {| h_st := st; h_tr := [] |} m in
+  k < count_durable (trace_of r) ->
+  crash_after st k r = ROk hc u ->
+  Node.Local.rrel (m_round m) (process_message put now' {| h_st := h_st hc; h_tr := [] |} m)
+                              (process_message put now' {| h_st := st; h_tr := [] |} m).
+Proof. exact killed_inside_then_redelivered. Qed.
+Print Assumptions C13_killed_inside_then_redelivered.
+
+(* 3. when the handler returns, the operation of the accepted message is in the pool (unless the very
+   same operation has been handled and retired before) *)
+Theorem C13_accepted_operation_is_pooled :
+  forall now h0 m h o,
+  process_message true now h0 m = ROk h (Some o) ->
+  existsb (op_same_id o) (ns_deleted (h_st h)) = false ->
+  existsb (op_same_id o) (ops_visible (h_st h)) = true.
+Proof. exact accepted_operation_is_pooled. Qed.
+Print Assumptions C13_accepted_operation_is_pooled.
+
+(* the hypotheses are met: the opening proposal issues two durable writes, pool then rounds *)
+Theorem C13_killed_inside_example :
+  let st0 := empty_node 2%N 3%N in
+  ns_skip st0 = false /\ m_event w_proposal <> ev_sgn_start /\ m_event w_proposal <> ev_sig_reconstructed /\
+  count_durable (trace_of (process_board_message 777 {| h_st := st0; h_tr := [] |} w_proposal)) = 2%nat.
+Proof. exact killed_inside_example. Qed.
+
+(* the witness of the former finding (the opening proposal, killed after k = 0, 1, 2 durable writes,
+   restarted, the proposal delivered again) now ends in the very state of the run never killed *)
+Theorem C13_former_witness_resumes :
   let st0 := empty_node 2%N 3%N in
   pending (final_state st0 [InMsg w_proposal]) = 1%nat /\
-  pending (final_state st0 [InCrashMsg 1 w_proposal; InMsg w_proposal]) = 0%nat /\
-  map (fun x => d_state (snd x)) (ns_rounds (final_state st0 [InCrashMsg 1 w_proposal; InMsg w_proposal])) =
-  map (fun x => d_state (snd x)) (ns_rounds (final_state st0 [InMsg w_proposal])).
-Proof. exact resume_equiv_refuted. Qed.
-Print Assumptions C13_resume_equiv_refuted.
+  final_state st0 [InCrashMsg 0 w_proposal; InMsg w_proposal] = final_state st0 [InMsg w_proposal] /\
+  final_state st0 [InCrashMsg 1 w_proposal; InMsg w_proposal] = final_state st0 [InMsg w_proposal] /\
+  final_state st0 [InCrashMsg 2 w_proposal; InMsg w_proposal] = final_state st0 [InMsg w_proposal].
+Proof. exact former_witness_resumes. Qed.
+Print Assumptions C13_former_witness_resumes.
 
-(* partial: a crash before the handler's first write to the round map leaves every round as it was,
-   so the redelivered message is handled from the same round state *)
+(* kept from before the repair: a crash before the handler's first write to the round map leaves
+   every round as it was *)
 Theorem C13_crash_before_round_write_partial :
   forall (A : Type) st k (r : res A) h u,
   forallb (fun w => negb (writes_rounds w)) (take_durable k (trace_of r)) = true ->
